@@ -112,6 +112,10 @@ pub(crate) fn encode_internal<W: Write, S: Borrow<Schema>>(
         | Value::LocalTimestampMicros(i)
         | Value::LocalTimestampNanos(i)
         | Value::TimeMicros(i) => encode_long(*i, writer),
+        // Validation accepts a float for a double, it has to be widened to be readable
+        Value::Float(x) if matches!(schema, Schema::Double) => {
+            write_all_counted(writer, &f64::from(*x).to_le_bytes())
+        }
         Value::Float(x) => write_all_counted(writer, &x.to_le_bytes()),
         Value::Double(x) => write_all_counted(writer, &x.to_le_bytes()),
         Value::Decimal(decimal) => match schema {
